@@ -168,6 +168,47 @@ pub fn run(ctx: &Ctx, rep: &mut Report) {
             }
         }
         item += 1;
+        // record-structured payloads: a few random bytes, then 3 .. 14 records of 2 / 3 / 4 / 6 / 8 / 12
+        // bytes drawn with repetition from a pool of two random records, the all-zero and the
+        // all-one record (tables of identical entries, the same entry again after empty ones):
+        // block-wise unpacking with short cuts for zero or repeated blocks must still deliver
+        // every byte. The leading bytes move the records through every alignment.
+        for ri in 0..ctx.budget(6_000, 120_000) {
+            if !ctx.mine(item + ri % 16) {
+                continue;
+            }
+            let rl = *r.pick(&[2usize, 3, 4, 6, 6, 6, 8, 12]);
+            let pool: Vec<Vec<u8>> = vec![r.bytes(rl), r.bytes(rl), vec![0u8; rl], vec![0xff; rl]];
+            let lead = r.usize(0, 11);
+            let nrec = r.usize(3, 14);
+            let mut data: Vec<u8> = r.bytes(lead);
+            let mut prev = 0usize;
+            for i in 0..nrec {
+                // patterns W 0 W, W W, W 0 0 W ... come up often: repeat the record before the last one
+                let pick = if i >= 2 && r.chance(1, 3) { prev } else { r.usize(0, 3) };
+                if i % 2 == 0 {
+                    prev = pick;
+                }
+                data.extend_from_slice(&pool[pick]);
+            }
+            let maxdata = if mon::is_noalloc() { 119 } else { 400 };
+            data.truncate(maxdata);
+            let l = hdr + 8 * data.len();
+            let mut bits = Bits::random(l, &mut r);
+            bits.put(0, 6, t as u64);
+            for (i, byte) in data.iter().enumerate() {
+                bits.put(hdr + 8 * i, 8, *byte as u64);
+            }
+            let via = [Via::Armor, Via::Line, Via::Armor, Via::Group][(ri % 4) as usize];
+            if mon::is_noalloc() && (l + 5) / 6 > 380 {
+                continue;
+            }
+            gen::run_message_mask(rep, PID, mask, &bits, via, "records");
+            if ri % 64 == 0 {
+                rep.class(format!("t{}|records|len{}|lead{}", t, rl, lead % 6));
+            }
+        }
+        item += 16;
         // header field sweeps: every value of every header field (dac 2^10, fid 2^6, ...)
         let base = {
             let mut b = Bits::random(hdr + 64, &mut r);
